@@ -97,6 +97,11 @@ func runC07(r *core.Run) {
 			cases = append(cases, fileCase{Writer: "ours", W: 2, Chunker: ch, L: L, K: 4099, Pattern: "distinct"})
 		}
 	}
+	// tall narrow trees: width 2 with up to 1025 chunks (11 levels), width 3 with
+	// 3^8 and 3^8+1 chunks
+	for _, wl := range [][2]int{{2, 256}, {2, 257}, {2, 300}, {2, 513}, {2, 1025}, {3, 6561}, {3, 6562}} {
+		cases = append(cases, fileCase{Writer: "ours", W: wl[0], Chunker: "size-1", L: wl[1], K: 1, Pattern: "distinct"})
+	}
 	// very wide nodes: the reference puts Maxlinks links into one node whatever
 	// the block size that gives
 	for _, wl := range [][2]int{{32768, 22310}, {32768, 22311}, {25000, 25001}} {
